@@ -9,7 +9,8 @@ LEVEL = "exploration"
 TECHNIQUE = "reference-model monitor: source-level interpreter (R1-R5) vs sanitizer-instrumented VM runs on generated programs"
 FLAVOURS = [("asan", "generated")]
 RULE = ("generated programs (0-3 definitions, nested LOOP/WHILE, labels, GOTO/IF into and out of loops, nested calls, "
-        "STOP, +/- sugar, library and random macros) x {canonical, random layout, multi-file}; every case is compiled "
+        "STOP, +/- sugar, library and random macros incl. macros with 11-26 slots) x {canonical, random layout, multi-file}, long-distance jumps, and 16 kinds of sources with one dimension past 2^8 "
+        "(variables, definitions, parameters, labels, nesting, call depth, identifier length, statements per line, files, include depth, macro arguments / slots / uses); every case is compiled "
         "and run under ASan+UBSan and its final activations are compared with the reference interpreter; "
         "non-trivial = reference terminated in range and executed >= 1 loop iteration or call; distinct by SHA-1 of the files")
 ASSUMPTIONS = [
@@ -28,6 +29,9 @@ def plan(tier, seed):
     specs = [{"seed": seed, "chunk": i, "n": PER_CHUNK, "budget": budget} for i in range(n // PER_CHUNK)]
     # jumps over more than 2^15 / 2^16 instructions (few: each program has ~50k instructions)
     specs += [{"seed": seed, "chunk": 900000 + i, "n": 0, "budget": 400000, "long": i} for i in range(5 if tier == "quick" else 15)]
+    # sources that are ordinary except for one dimension pushed past 2^8 / 2^16 (variables, definitions, parameters, labels, nesting,
+    # call depth, identifier length, statements per line, files, include depth, macro slots / arguments / uses)
+    specs += [{"seed": seed, "chunk": 950000 + i, "n": 0, "budget": 400000, "scale": i} for i in range(16 if tier == "quick" else 64)]
     return specs
 
 
@@ -141,6 +145,10 @@ def prepare(spec):
         srcs = programs.long_distance_sources(r)
         text, kind = srcs[spec["long"] % len(srcs)]
         return [build_item({"main": text}, "main", spec["budget"], "long-distance-jumps")]
+    if "scale" in spec:
+        srcs = programs.scale_sources(r)
+        files, main, kind = srcs[spec["scale"] % len(srcs)]
+        return [build_item(files, main, spec["budget"], kind)]
     for k in range(spec["n"]):
         variant = VARIANTS[(spec["chunk"] * spec["n"] + k) % len(VARIANTS)]
         files, main, tags = make_source(r, variant)
